@@ -15,7 +15,7 @@ PROPS["C02"] = dict(
     exhaustive=True,
     exhaustive_axis="all 65536 first words (decode/length/form clauses); states, second words and start addresses sampled",
     ready=True,
-    technique="runtime monitoring: exhaustive opcode enumeration with a recording visitor on the real decode table, fetch observation through the memory observer, twin execution of unused-bit variants",
+    technique="runtime monitoring: exhaustive opcode enumeration with a recording visitor on the real decode table, fetch observation through the memory observer, twin execution of unused-bit variants, call-history independence of the decode/print entry points (forked pristine processes, fresh threads)",
     level_text="Exploration, complete on the opcode axis: every first word is decoded by the tree's own table through a recording visitor, executed on the real interpreter with the memory observer logging program fetches, disassembled and re-assembled; unused-bit classes are executed as twins.",
     level_note="Second words, start addresses and register states are sampled. 'Unused bits' are taken both from the tree's own table and from the frozen reference table (pinned commit).",
     assumptions=["an opcode whose execution ends in a deliberate assertion/unimplemented exception is exempt from the second-step check (counted)"],
